@@ -249,8 +249,25 @@ def check(run):
         f = fx.fn1(fname)
         run.touch(f)
         deleg = [c for c in f.calls() if (q.callee_name(c) or '') == S + '::' + fname.split('::')[-1]]
-        sites = [c for c in f.calls() if (c.get('callee') or '').endswith('error_code::assign') and 'address_not_available' in q.render(f, c)]
+        is_err = lambda g_, c: (c.get('callee') or '').endswith('error_code::assign') and 'address_not_available' in q.render(g_, c)
+        sites = [c for c in f.calls() if is_err(f, c)]
         ok = len(sites) >= 3 and all(not any(f.cfg._reaches(f.cfg.node_block(s), f.cfg.node_block(d)) for d in deleg) for s in sites)
+        if not sites:
+            # the address selection may have been extracted into a helper that assigns the error and reports it through a
+            # boolean result: the helper returns one constant after every assignment and the other on every clean path,
+            # and the caller reaches simulation::bind only under the clean value
+            for hc, h in q._helpers(f, 1, ()):
+                hs = [c for c in h.calls() if is_err(h, c)]
+                if len(hs) < 3:
+                    continue
+                rets = [r for r in q.returns(h) if r.get('e') is not None]
+                after = {q.strip_casts(r['e']).get('v') for r in rets if any(h.cfg._reaches(h.cfg.node_block(s), h.cfg.node_block(r)) or h.cfg.node_block(s) == h.cfg.node_block(r) for s in hs)}
+                clean = {q.strip_casts(r['e']).get('v') for r in rets if h.cfg.node_block(r) in (h.cfg.reach_from(h.cfg.entry, avoid={h.cfg.node_block(s) for s in hs}) | {h.cfg.entry})}
+                if not after or not clean or (after & clean) or not all(isinstance(v, bool) for v in after | clean) or len(clean) != 1:
+                    continue
+                want = list(clean)[0]
+                ok = bool(deleg) and all(any(q.strip_casts(a) is hc and p_ == want for a, p_ in q.guards_at(f, d)) for d in deleg)
+                sites = hs
         run.check(ok and bool(deleg), 'R4', 'error-does-not-register', '%s: address_not_available' % fname, f.loc(), 'address_not_available paths can still reach the registry', '3 paths assign it and none reaches simulation::bind')
     for cls in (T, U):
         f = fx.fn(cls + '::bind', None)
